@@ -169,6 +169,13 @@ structure Cols (m n : Nat) (b : Type) where
 def take_cols {b : Type} {m n : Nat} (x : A2 m n b) (mask : A1 n Bool) : Cols m n b := ⟨x.v, mask.v⟩
 def sum_kept {b : Type} {m n : Nat} [Add b] [OfNat b 0] (x : Cols m n b) : A1 m b :=
   ⟨fun i => sumFin fun j => if x.keep j then x.v i j else 0⟩
+/-- `np.any(x)` over the whole array, as the truth value an `if` tests -/
+class AnyAll (X : Type) where
+  anyAll : X → Bool
+instance {b : Type} [Truthy b] : AnyAll (A0 b) := ⟨fun x => Truthy.t x.v⟩
+instance {b : Type} {n : Nat} [Truthy b] : AnyAll (A1 n b) := ⟨fun x => anyFin fun j => Truthy.t (x.v j)⟩
+instance {b : Type} {m n : Nat} [Truthy b] : AnyAll (A2 m n b) := ⟨fun x => anyFin fun i => anyFin fun j => Truthy.t (x.v i j)⟩
+def any_all {X : Type} [AnyAll X] (x : X) : Bool := AnyAll.anyAll x
 /-- `c in arr` -/
 def contains {b : Type} {n : Nat} [DecidableEq b] (arr : A1 n b) (c : A0 b) : Bool := anyFin fun j => decide (arr.v j = c.v)
 /-- `if cond: x = e1 else: x = e2` where one branch may be a scalar that later broadcasts against the other -/
